@@ -1,4 +1,130 @@
-import FuModel.Xargs.Batch
+import FuModel.Proofs.XargsExit
+
+/-!
+# C19 — xargs exit status as a function of the outcomes of the started commands
+
+Property theorems only (lemmas are in `Proofs/XargsExit.lean`).  The model
+(`Xargs/Batch.lean`) mirrors `process_input`, `CommandBuilder::execute` and the
+status map of `xargs_main`; `startedOutcomes script k` (`Xargs/BatchSpec.lean`)
+is the list of outcomes of the first `k` started commands.
+-/
 namespace FuModel.Xargs
-theorem C19_placeholder : classify (.exit 0) = .success := rfl
+
+/-- The commands consume the script in order: the k-th started command gets the k-th
+    scripted outcome (exit 0 once the script is exhausted); nothing is started after a
+    fatal outcome. -/
+theorem C19_stops_at_fatal (cfg : Config) (init : LState) (rdErr : Bool) (script : List Outcome) (args : List Arg) :
+    let run := processInput cfg init rdErr ⟨init, []⟩ false false [] script args
+    let outs := startedOutcomes script run.batches.length
+    ∀ i o, outs[i]? = some o → o.isFatal = true → i + 1 = run.batches.length := by
+  intro run outs
+  obtain ⟨k, hk, hinv⟩ := processInput_inv cfg init rdErr args ⟨init, []⟩ false false [] script
+  have hk' : run.batches.length = k := by simpa using hk
+  show ∀ i o, (startedOutcomes script run.batches.length)[i]? = some o → _
+  rw [hk']
+  exact hinv.stops
+
+/-- The exit status is the documented function of the outcomes of the started commands:
+    the status of the (necessarily last) fatal outcome if there is one; otherwise 1 for xargs'
+    own errors, or else 123 if some command failed and 0 if none did. -/
+theorem C19_exit_status (cfg : Config) (init : LState) (rdErr : Bool) (script : List Outcome) (args : List Arg) :
+    let run := processInput cfg init rdErr ⟨init, []⟩ false false [] script args
+    let outs := startedOutcomes script run.batches.length
+    match outs.find? (fun o => o.isFatal) with
+    | some o => run.status = o.fatalStatus
+    | none => run.status = 1 ∨ run.status = (if outs.any (fun o => o.isFailure) then 123 else 0) := by
+  intro run outs
+  obtain ⟨k, hk, hinv⟩ := processInput_inv cfg init rdErr args ⟨init, []⟩ false false [] script
+  have hk' : run.batches.length = k := by simpa using hk
+  have houts : outs = startedOutcomes script k := by rw [← hk']
+  split
+  · rename_i o ho
+    exact hinv.fatal o (houts ▸ ho)
+  · rename_i ho
+    have := hinv.plain (houts ▸ ho)
+    rw [houts]
+    simpa using this
+
+/-- Status 0 means: every started command exited 0 (and, by C04_lossless, all input was processed). -/
+theorem C19_zero_iff (cfg : Config) (init : LState) (rdErr : Bool) (script : List Outcome) (args : List Arg) :
+    let run := processInput cfg init rdErr ⟨init, []⟩ false false [] script args
+    let outs := startedOutcomes script run.batches.length
+    run.status = 0 → ∀ o ∈ outs, o = Outcome.exit 0 := by
+  intro run outs h0
+  obtain ⟨k, hk, hinv⟩ := processInput_inv cfg init rdErr args ⟨init, []⟩ false false [] script
+  have hk' : run.batches.length = k := by simpa using hk
+  have houts : outs = startedOutcomes script k := by rw [← hk']
+  have hs : (processInput cfg init rdErr ⟨init, []⟩ false false [] script args).status = 0 := h0
+  rw [houts]
+  cases hf : (startedOutcomes script k).find? (fun o => o.isFatal) with
+  | some o =>
+    have h1 := hinv.fatal o hf
+    have h2 := fatalStatus_ge o
+    omega
+  | none =>
+    have hp := hinv.plain hf
+    rw [hs] at hp
+    have hany : (startedOutcomes script k).any (fun o => o.isFailure) = false := by
+      cases hb : (startedOutcomes script k).any (fun o => o.isFailure) with
+      | false => rfl
+      | true => rw [hb] at hp; simp at hp
+    intro o ho
+    apply eq_exit_zero_of_not_fatal_not_failure
+    · have := List.find?_eq_none.mp hf o ho
+      simpa using this
+    · have := List.any_eq_false.mp hany o ho
+      simpa using this
+
+/-- A non-fatal failure does not stop the run: when no scripted outcome is fatal and xargs has
+    no error of its own (status ≠ 1), every input argument is delivered. -/
+theorem C19_continues_past_failures (cfg : Config) (init : LState) (script : List Outcome) (args : List Arg)
+    (hnf : ∀ o ∈ script, o.isFatal = false) :
+    let run := processInput cfg init false ⟨init, []⟩ false false [] script args
+    run.status ≠ 1 → run.batches.flatten = args := by
+  intro run hs
+  have := processInput_flatten cfg init args ⟨init, []⟩ false false [] script hnf (fun _ => rfl) hs
+  simpa using this
+
+/-- xargs' own input error (unterminated quote) gives status 1 unless a child's fatal outcome came first. -/
+theorem C19_reader_error (cfg : Config) (init : LState) (script : List Outcome) (args : List Arg)
+    (hnf : ∀ o ∈ script, o.isFatal = false) :
+    (processInput cfg init true ⟨init, []⟩ false false [] script args).status = 1 :=
+  processInput_reader cfg init args ⟨init, []⟩ false false [] script hnf
+
+/-! ### Examples on concrete data (`exCfg`: `-n 2`; `exArgs`: five one-byte arguments;
+both defined in `Proofs/XargsExit.lean`) -/
+
+
+/-- a failing command (exit 3) does not stop the run: three commands, status 123 -/
+example : processInput exCfg LState.zero false ⟨LState.zero, []⟩ false false []
+      [.exit 0, .exit 3, .exit 0] exArgs
+    = ⟨[[exArg 97, exArg 98], [exArg 99, exArg 100], [exArg 101]], 123⟩ := by decide
+
+/-- exit 255 of the second command stops the run at once with status 124; the
+    third scripted outcome is never consumed and the last argument never delivered -/
+example : processInput exCfg LState.zero false ⟨LState.zero, []⟩ false false []
+      [.exit 1, .exit 255, .signal 9] exArgs
+    = ⟨[[exArg 97, exArg 98], [exArg 99, exArg 100]], 124⟩ := by decide
+
+/-- a command killed by a signal: status 125 even though an earlier command failed -/
+example : (processInput exCfg LState.zero false ⟨LState.zero, []⟩ false false []
+      [.exit 7, .exit 0, .signal 15] exArgs).status = 125 := by decide
+
+/-- exhausted script means exit 0: everything delivered, status 0 -/
+example : processInput exCfg LState.zero false ⟨LState.zero, []⟩ false false [] [.exit 0] exArgs
+    = ⟨[[exArg 97, exArg 98], [exArg 99, exArg 100], [exArg 101]], 0⟩ := by decide
+
+/-- reader error after the last argument: the command under construction is dropped, status 1 -/
+example : processInput exCfg LState.zero true ⟨LState.zero, []⟩ false false []
+      [.exit 0, .exit 3] exArgs
+    = ⟨[[exArg 97, exArg 98], [exArg 99, exArg 100]], 1⟩ := by decide
+
+/-- ... unless a fatal outcome (command not found, 127) came first -/
+example : processInput exCfg LState.zero true ⟨LState.zero, []⟩ false false []
+      [.notFound, .exit 3] exArgs
+    = ⟨[[exArg 97, exArg 98]], 127⟩ := by decide
+
+/-- the started outcomes of the second example -/
+example : startedOutcomes [.exit 1, .exit 255, .signal 9] 2 = [.exit 1, .exit 255] := by decide
+
 end FuModel.Xargs
